@@ -485,7 +485,7 @@ def generate(ctx, P):
     if pid not in FLAVORS and pid != "C09":
         return []
     rng = random.Random(seed_for(ctx))
-    n = P.get("quick_n", 500) if ctx.tier == "quick" else P.get("thorough_n", 12000)
+    n = P.get("quick_n", 1500) if ctx.tier == "quick" else P.get("thorough_n", 12000)
     if pid == "C09":
         return [sizes_history(rng, "z%d" % k) for k in range(n)]
     fl = FLAVORS[pid]
